@@ -261,6 +261,13 @@ struct Position ghost_pos1;
 #else
 #define RI_CASE(p, m) 1
 #endif
+#ifdef CASE_EVP
+/* complete case split of the piece-section proof of checkEvasions on the kind of the own piece standing on ghost_m.from_ (5 = none of K,Q,R,B,N) */
+#define EVP_KIND(p) (((p)->squares[ghost_m.from_] >= ((p)->whiteMove ? Piece_WKING : Piece_BKING) && (p)->squares[ghost_m.from_] <= ((p)->whiteMove ? Piece_WKNIGHT : Piece_BKNIGHT)) ? (p)->squares[ghost_m.from_] - ((p)->whiteMove ? Piece_WKING : Piece_BKING) : 5)
+#define EVP_CASE(p) (EVP_KIND(p) == CASE_EVP)
+#else
+#define EVP_CASE(p) 1
+#endif
 #ifdef CASE_GC
 #define GC_CASE(p, m) ((((p)->squares[(m)->from_] - 1) % 6) == CASE_GC)
 #else
@@ -511,7 +518,7 @@ for _sfx, _me in (('_w', 1), ('_b', 0)):
     _c = _evasion_contract(bool(_me))
     _Q, _R, _B, _N = (('Piece_WQUEEN', 'Piece_WROOK', 'Piece_WBISHOP', 'Piece_WKNIGHT') if _me else ('Piece_BQUEEN', 'Piece_BROOK', 'Piece_BBISHOP', 'Piece_BKNIGHT'))
     CONTRACTS['MoveGen_checkEvasions_pieces' + _sfx] = {
-        'requires': _mpre + ['ghost_hits0 == ghost_hits', 'ghost_ksq == spec_king_sq(pos->squares, %d)' % _me,
+        'requires': _mpre + ['EVP_CASE(pos)', 'ghost_hits0 == ghost_hits', 'ghost_ksq == spec_king_sq(pos->squares, %d)' % _me,
                              'ghost_Q0 == pos->pieceTypeBB_[%s] && ghost_R0 == pos->pieceTypeBB_[%s] && ghost_B0 == pos->pieceTypeBB_[%s] && ghost_N0 == pos->pieceTypeBB_[%s]' % (_Q, _R, _B, _N),
                              'ghost_tQ == spec_gm_slider(pos, Piece_WQUEEN, validTargets)', 'ghost_tR == spec_gm_slider(pos, Piece_WROOK, validTargets)', 'ghost_tB == spec_gm_slider(pos, Piece_WBISHOP, validTargets)',
                              'ghost_tN == spec_gm_slider(pos, Piece_WKNIGHT, validTargets)', 'ghost_tK == spec_gm_slider(pos, Piece_WKING, ~0ULL)'],
@@ -701,6 +708,9 @@ for _sfx in ('_w', '_b'):
                         replace=_ATT + ('BitBoard_firstSquare', 'BitBoard_squaresBetween'), min_props=10, timeout=3000))
     GROUPS.append(Group('checkEvasions_pieces' + _sfx, 'h_evasion_pieces' + _sfx, enforce='MoveGen_checkEvasions_pieces' + _sfx, tier='thorough',
                         replace=_ATT + ('MoveGen_addMovesByMask', 'BitBoard_extractSquare'), loop_contracts=True, min_props=10, expect_loop_props=4, timeout=3000))
+    GROUPS.append(Group('checkEvasions_pieces_split' + _sfx, 'h_evasion_pieces' + _sfx, enforce='MoveGen_checkEvasions_pieces' + _sfx,
+                        replace=_ATT + ('MoveGen_addMovesByMask', 'BitBoard_extractSquare'), loop_contracts=True, min_props=10, expect_loop_props=4, timeout=3000,
+                        cases=('case', [('CASE_EVP=%d' % k,) for k in range(6)])))
     GROUPS.append(Group('checkEvasions_tiled' + _sfx, 'h_evasion_tiled' + _sfx, enforce='MoveGen_checkEvasions_tiled' + _sfx, defines=('COMPOSE_UF=1',),
                         replace=('Position_occupiedBB', 'MoveGen_checkEvasions_head' + _sfx, 'MoveGen_checkEvasions_pieces' + _sfx, 'MoveGen_checkEvasions_pawns' + _sfx), min_props=5, timeout=3000,
                         note='composition of the three fragment contracts; spec functions uninterpreted (COMPOSE_UF)'))
@@ -723,14 +733,14 @@ CLAIMED += ['givesCheck']   # givesCheck: thorough tier only (6 cases, 10-36 min
 PROPERTIES = {'C01': CLAIMED}
 ASSUMPTIONS = {'C01': [
     'assumed contracts (stubs): BitBoard::rookAttacks / bishopAttacks return the ray sets over the given occupancy (magic lookup and its tables are not proved)',
-    'BitBoard::kingAttacks/knightAttacks/wPawnAttacks/bPawnAttacks are used through contracts proved in unit bbtables (table initialisation fragments of staticInitialize + lookups); squaresBetween: lookup proved, initialisation of squaresBetweenTable NOT proved (assumed); getDirection is proved in unit bits',
+    'BitBoard::kingAttacks/knightAttacks/wPawnAttacks/bPawnAttacks are used through contracts proved in unit bbtables (table initialisation fragments of staticInitialize + lookups); squaresBetween: lookup and table initialisation (row by row) proved in unit bbtables; getDirection is proved in unit bits',
     'assumed contract: MoveList::addMove appends exactly its move (placement new into the int buffer, text pinned); A-MAXMOVES: the capacity of 256 moves is never exceeded',
     'position domain: bitboards consistent with the board (wf_bb), one king per side, no pawns on the first/last rank, castling rights imply king and rook on their squares, en-passant square as makeMove establishes it',
 ]}
 NOT_DECIDED = {'C01': ['isLegal (verdict == playing the move): contract written, complete 12-way case split; the two king-move cases are discharged (24 and 42 min), the other cases did not finish in 50 min each: not claimed',
                        'removeIllegal (legality filter with the king-ray shortcut): not under contract; hence "the set treated as legal == the legal moves" is decided only up to the legality filter (pseudo-legal generation and the evasion candidates are exact)',
                        'pseudoLegalCapturesAndChecks (over-approximating generator with discovered-check masks): not under contract',
-                       'sliding-attack magic tables, initialisation of squaresBetweenTable, FEN text layer, MoveList capacity']}
+                       'sliding-attack magic tables, FEN text layer, MoveList capacity']}
 
 MUTANTS = [
     dict(name='sqAttacked_pawn_colour', file='lib/texellib/moveGen.hpp', pattern=r'        if \(\(BitBoard::wPawnAttacks\(sq\) & pos.pieceTypeBB\(OtherColor::PAWN\)\) != 0\)', repl='        if ((BitBoard::bPawnAttacks(sq) & pos.pieceTypeBB(OtherColor::PAWN)) != 0)', groups=['sqAttacked_w']),
